@@ -232,7 +232,9 @@ def roundtrip_case(draw):
     return {'pool': pool, 'sd': sd, 'rd': rd, 'fmt': fmt, 'space': draw(st.booleans()),
             'react': state(4), 'prod': state(4),
             'ts': state(1) if draw(st.integers(0, 2)) == 0 else None,
-            'cls': draw(st.sampled_from(['Reaction', 'Reaction', 'ring-file']))}
+            'cls': draw(st.sampled_from(['Reaction', 'Reaction', 'ring-file'])),
+            # a RING file whose last reaction line is or is not terminated by a newline
+            'eol': draw(st.sampled_from(['\n', '']))}
 
 
 def _half_ulp(fmt, v):
@@ -276,7 +278,8 @@ def check_roundtrip(case, ctx):
         try:
             fn = os.path.join(d, 'rxn.txt')
             with open(fn, 'w') as f:
-                f.write('# header without the delimiter\n%s\n' % text)
+                f.write('# header without the delimiter\n%s%s' % (text, case.get('eol', '\n')))
+            ctx.label('ring-eol:%r' % case.get('eol', '\n'))
             back = read_reactions(fn, species, species_delimiter=sd, reaction_delimiter=rd)
             rx2 = back.reactions[0]
             if len(back.reactions) != 1:
